@@ -1,3 +1,4 @@
+import subprocess
 #!/usr/bin/env python3
 """check.py <ID> [--tier quick|thorough] [--replay FILE]
 
@@ -100,6 +101,7 @@ def main():
         ref_out = {}            # C08: first value leg per sqrt back-end
         ub_reports = []
         legs = []               # (variant, compared, info)
+        dirty_done = False
         for v in variants:
             exe, info = fmlib.build_harness(v)
             if v.san:
@@ -112,6 +114,20 @@ def main():
                 o, rc, err = fmlib.run_parallel(exe, lines)
                 if len(o) != len(lines):
                     o = o + ["crash"] * (len(lines) - len(o))
+            if not v.san and not dirty_done:
+                # purity: the same operations, each evaluated a second time after errno, the floating-point status flags
+                # and the library's own potential caches were disturbed (HARNESS_DIRTY), must give the same results
+                dirty_done = True
+                o2, rc2, err2 = fmlib.run_parallel(exe, lines, env={"HARNESS_DIRTY": "1"})
+                if len(o2) == len(o):
+                    for i, (x1, x2) in enumerate(zip(o, o2)):
+                        if x1 != x2 and dom[i]:
+                            oracle_fail.append((lines[i], v.name + " (disturbed ambient state)", x2,
+                                "the result depends on hidden state: %s in a clean run, %s when the same call is repeated after errno/FP flags were set and other library calls were made" % (x1, x2)))
+                            if len(oracle_fail) > 200: break
+                else:
+                    notes.append("disturbed-state run produced %d results for %d inputs" % (len(o2), len(o)))
+                del o2
             mo_list = model_by_be.get(v.backend, model_out) if has_dflt else model_out
             n_leg = 0
             for i, io in zip(idx, o):
@@ -169,6 +185,37 @@ def main():
     except fmlib.BuildError as e:
         return finish(ev, pid, t0, [{"kind": "build", "what": str(e)[:4000]}], notes, None)
 
+    # native soak: tens of millions of generated operations, model driver against the real library, compared natively
+    soak_stats = None
+    if not args.replay:
+        try:
+            soak_stats, s_div = soak(pid, suite, tier, seed, driver)
+            for line, leg, io, mo in s_div:
+                fn_, tag_, a_ = suites.parse_line(line)
+                if not suite.in_domain(fn_, tag_, a_): continue
+                diverge.append((line, leg + " (soak)", io, mo))
+                r = suites.parse_out(io)
+                why = ("the call did not return normally (%s)" % io) if r is None else suite.oracle(fn_, tag_, a_, r)
+                if why: oracle_fail.append((line, leg + " (soak)", io, why))
+            evals += soak_stats["compared"]
+            # relations (periodicity, oddness ...) for the diverging soak inputs: evaluate their companion inputs on the leg
+            comp = getattr(suite, "companions", None)
+            if s_div and comp and post and not any("(soak)" in x[1] for x in oracle_fail):
+                by_leg = collections.defaultdict(list)
+                for line, leg, io, mo in s_div[:300]: by_leg[leg].append((line, io))
+                for v_ in (fmlib.V_DEFAULT, fmlib.V_CLANG20):
+                    if v_.name not in by_leg: continue
+                    extra = sorted({c for line, io in by_leg[v_.name] for c in comp(*suites.parse_line(line))})
+                    exe_, _ = fmlib.build_harness(v_)
+                    o_, rc_, err_ = fmlib.run_parallel(exe_, extra)
+                    res = {l: suites.parse_out(x) for l, x in zip(extra, o_)}
+                    res.update({line: suites.parse_out(io) for line, io in by_leg[v_.name]})
+                    res = {k: v for k, v in res.items() if v is not None}
+                    for line, why in post(res)[:50]:
+                        oracle_fail.append((line, v_.name + " (soak)", "ok %s" % res.get(line), why))
+        except fmlib.BuildError as e:
+            return finish(ev, pid, t0, [{"kind": "build", "what": str(e)[:4000]}], notes, None)
+
     # constant-evaluation leg (C08): the model's value must be accepted as a constant expression
     ce_stats = None
     if not args.replay or getattr(suite, "constexpr", False):
@@ -224,6 +271,7 @@ def main():
     cov["model_ub_results"] = model_ub
     cov["ub_reports"] = ub_reports[:5]
     if ce_stats is not None: cov["constant_evaluation_leg"] = ce_stats
+    if soak_stats is not None: cov["native_soak"] = soak_stats
     cov["translator"] = {"changed": g["changed"], "table_sha": g.get("table_sha")}
     cov["notes"] = notes
     ev["assumptions"] = ["the theorems are about the Lean model; the model is tied to /repo by this run's correspondence (%d comparisons, %d divergences)" % (evals, len(diverge))]
@@ -299,6 +347,44 @@ def lean_obligations(suite, tier):
         if r.returncode != 0:
             res["ok"] = False; res["failed"].append("leanchecker " + mod)
     return res
+
+def soak(pid, suite, tier, seed, driver):
+    """generate operations natively (tools/soakgen.cc), run them through the Lean model driver and through two value
+    legs of the real library, compare the output files natively; only mismatching lines are read back"""
+    import tempfile, shutil
+    gen_exe = fmlib.build_soakgen()
+    per = 1_200_000 if tier == "quick" else 40_000_000
+    workers = fmlib.NCPU
+    legs2 = [fmlib.V_DEFAULT, fmlib.V_CLANG20]
+    exes = [fmlib.build_harness(v)[0] for v in legs2]
+    d = tempfile.mkdtemp(prefix="fmsoak")
+    div, compared = [], 0
+    try:
+        import concurrent.futures as cf
+        def work(w):
+            exe = exes[w % len(exes)]
+            L, M, H = (os.path.join(d, "%s%d" % (c, w)) for c in "LMH")
+            cmd = ("%s %s %d %d | sed 's/:dflt/:std/' > %s && %s < %s > %s & pid1=$!; wait $pid1; %s < %s > %s; cmp -s %s %s" %
+                   (gen_exe, pid, seed * 1000 + w, per, L, driver, L, M, exe, L, H, M, H))
+            r = subprocess.run(["bash", "-c", cmd], capture_output=True, text=True)
+            out = []
+            if r.returncode != 0:
+                with open(L) as fl, open(M) as fm, open(H) as fh:
+                    for l, m_, h in zip(fl, fm, fh):
+                        if m_ != h:
+                            out.append((l.strip(), legs2[w % len(exes)].name, h.strip(), m_.strip()))
+                            if len(out) >= 2000: break
+            n = per
+            for f in (L, M, H):
+                try: os.remove(f)
+                except OSError: pass
+            return out, n
+        with cf.ThreadPoolExecutor(max_workers=workers) as ex:
+            for out, n in ex.map(work, range(workers)):
+                div += out; compared += n
+    finally:
+        shutil.rmtree(d, ignore_errors=True)
+    return {"generator": "tools/soakgen.cc", "compared": compared, "workers": workers, "legs": [v.name for v in legs2], "mismatches": len(div)}, div
 
 def special_first(lines, seed):
     sp = sorted(l for l in lines if l in suites.SPECIAL)
